@@ -67,9 +67,41 @@ pub fn selftest() -> i32 {
     run("rules", crate::rules::selftest());
     run("refad", crate::refad::selftest());
     run("polyspline", crate::polyspline::selftest());
+    run("probe-budget", probe_selftest());
     if bad == 0 {
         0
     } else {
         2
     }
+}
+
+/// the probing proxy turns a non-terminating calendar search into an observable event
+fn probe_selftest() -> Result<(), String> {
+    use crate::calmodel::{to_ndt, Probe, PROBE_BUDGET_MARKER};
+    use crate::sup::{guarded, install_panic_hook, Caught};
+    use rateslib::calendars::{DateRoll, Modifier};
+    struct Never;
+    impl DateRoll for Never {
+        fn is_weekday(&self, _d: &chrono::NaiveDateTime) -> bool {
+            false
+        }
+        fn is_holiday(&self, _d: &chrono::NaiveDateTime) -> bool {
+            false
+        }
+        fn is_settlement(&self, _d: &chrono::NaiveDateTime) -> bool {
+            true
+        }
+    }
+    install_panic_hook();
+    let never = Never;
+    let p = Probe::new(&never, 5_000);
+    match guarded(|| p.roll(&to_ndt(20000), &Modifier::F, false)) {
+        Caught::Panic { msg, .. } if msg == PROBE_BUDGET_MARKER => {}
+        Caught::Panic { msg, .. } => return Err(format!("unexpected panic {}", msg)),
+        Caught::Ok(d) => return Err(format!("a calendar without business days rolled to {}", d)),
+    }
+    if p.probes.get() < 5_000 {
+        return Err("probe counter did not advance".into());
+    }
+    Ok(())
 }
